@@ -24,6 +24,21 @@ CLAIMS = {
  "C14": ("other", "DESIGN.md §3 C14", "decision-table extraction: path enumeration + three-valued interval abstract interpretation over constant-induced cells",
    "The admission functions touch lengths, flags and enumerators only through comparisons with constants, so their accept sets are computed exactly by abstract interpretation over the finite cell grid induced by every constant in the code and in the property, and compared with the property's predicate (input admission: all flag sets x formats x password hashes x single fields and field pairs; suite usability: full product). Entry-point rules show the validators run first, on the caller's own suite and input, and nothing else conditions on the input.",
    "Domain restricted to the defined ChallengeFormat / PasswordHashAlgorithm enumerators; user-defined Suite implementations excluded by the property. Trusted: go/ssa."),
+ "C01": ("other", "DESIGN.md §3 C01", "origin-term composition rules over SSA: constant-table evaluation, interval/dominating-gate analysis, byte-lane abstraction, decimal-sweep loop recognition",
+   "Decides that GenerateHOTP is the RFC 4226 composition of trusted primitives, clause by clause and on all paths (modulus table 10^d reaching the reduction unnarrowed; digits/hash gates before the table index; constructor table sha1/sha256/sha512 keyed by the decoded secret unchanged; message = one big-endian PutUint64 of the caller's counter; dynamic truncation by byte lanes; complete descending decimal rendering of exactly `digits` characters; defaults). It does not compute HMACs: numeric equality rests on the trusted primitives; idioms outside the enumerated ones are reported undecided.",
+   "Trusted: crypto/hmac, sha1/sha256/sha512, encoding/binary. A structural necessary-condition check, not an evaluation of codes."),
+ "C02": ("other", "DESIGN.md §3 C02", "origin-term matching of the time-step function and of the derivation call arguments bound from the entry points; constant evaluation of defaults",
+   "TimeCounterFunc is uint64(t.Unix())/uint64(period) and is never reassigned; both TOTP entry points reach exactly the HOTP derivation with counter = TimeCounterFunc(t, period), t used nowhere else, period resolved identically (0 and nil → 30 s) in generation, validation and URL building; digits/algorithm/defaults resolved identically.",
+   "The HOTP value is C01's subject. Pre-epoch instants and a caller-replaced TimeCounterFunc are outside the property."),
+ "C03": ("other", "DESIGN.md §3 C03", "loop-shape recognition (induction variable, bounds, guard) + interval analysis of the gate + origin terms bound through closures for the comparison core",
+   "The window loop is i = -s..+s step 1 with s exactly in [0,10] by a dominating gate, step i validates counter c+i with the unsigned underflow guard c < uint64(-i), acceptance only under that step's verdict; the comparison core compares the whole submitted string in constant time with the whole result of the same derivation generation uses (same key, digits, algorithm), after the length test; defaults 6/SHA-1/2. Structural conditions each of which is necessary for the stated 'iff'.",
+   "Together with C01. Does not show that codes of different counters differ (not claimed)."),
+ "C04": ("other", "DESIGN.md §3 C04", "same as C03 on ValidateTOTP plus period-resolution agreement",
+   "Skew exactly in [0,10] at the loop (bounded work), one loop i=-s..+s, step i validates TimeCounterFunc(t,period)+i, acceptance only under the step verdict, shared comparison core, defaults {6, SHA-1, 30 s, 0}, period resolution identical in generation and validation.",
+   "Together with C01/C02. The property's domain has the whole window at or after step 0."),
+ "C15": ("other", "DESIGN.md §3 C15", "exhaustive constant-table evaluation of the registry against an independent RFC 6287 name parser; table identity; parser token tables; dominance of Validate()==nil",
+   "All 45 registry entries are evaluated from the syntax tree and compared field by field with what an independent parser of the name says (exhaustive for the advertised names); the four lookup functions read that one never-written table; NewRawSuite reports the given string as name; the parser's token tables, unit scaling without narrowing, validate-before-return, whole-token version equality and exactly three parts are checked; no memoisation on the path.",
+   "The parser's behaviour over the whole string language (Split/Atoi semantics) is not decided. 'T1' without unit means seconds (frozen exception)."),
 }
 
 PENDING_REASON = "not claimed at this commit: the rule set planned in DESIGN.md §3 is not implemented yet (no check is registered, so nothing is asserted)"
